@@ -110,3 +110,69 @@ Theorem C19_second_pass_stops_at_a_grown_line : forall A o B e,
   snd (scan (A ++ o ++ nl :: B) e) = STooLong /\ fst (scan (A ++ o ++ nl :: B) e) = fst (scan A REof).
 Proof. exact toolong_after_block. Qed.
 Print Assumptions C19_second_pass_stops_at_a_grown_line.
+
+(* ---------- the whole log: what a second pass over an output file does ---------- *)
+From Proofs Require Import StreamIdem.
+
+(* The property as it is worded - "feeding a placeholder-mode output file back through the tool reproduces it byte for byte" - for every input
+   text, every combination of --redactNumbers / --redactBooleans / --redactIPs and every replacement text that is valid UTF-8 and not e-mail
+   shaped, on the regenerated tables: a fault-free second pass over the output of a fault-free pass EITHER stops with the explicit too-long error
+   (a line grew past the reader's limit, the case of the theorem above: F34) OR succeeds and writes exactly the bytes it read. Nothing else can
+   happen: no line is dropped, reordered, merged or re-redacted. *)
+Theorem C19_log_second_pass : forall rp n b i data,
+  is_email rp = false -> valid_string rp ->
+  let c := {| repl := rp; nums := n; bools := b; ips := i; nss := false; eager := []; re := None |} in
+  let out := stream current current_consts c None data in
+  snd (scan out REof) = STooLong
+  \/ run_io current current_consts c None out REof (fun _ => Accept) None = (ROk, out).
+Proof.
+  intros rp n b i data Hr Hv c out. subst out.
+  apply second_pass. intros l o H. exact (C19_line_fixed_point rp n b i l o Hr Hv H).
+Qed.
+Print Assumptions C19_log_second_pass.
+
+(* hence redact (redact x) = redact x for every log none of whose redacted lines reaches the reader's limit - a condition on the OUTPUT that
+   can be read off it (for the measured limit: every line shorter than max_token bytes, newline included) *)
+Theorem C19_log_fixed_point : forall rp n b i data,
+  is_email rp = false -> valid_string rp ->
+  let c := {| repl := rp; nums := n; bools := b; ips := i; nss := false; eager := []; re := None |} in
+  Forall (fun o => (len_N o + 1 <= max_token)%N) (outs current current_consts c None (fst (scan data REof))) ->
+  stream current current_consts c None (stream current current_consts c None data) = stream current current_consts c None data.
+Proof.
+  intros rp n b i data Hr Hv c F.
+  apply stream_fixed_point_short; [|exact F]. intros l o H. exact (C19_line_fixed_point rp n b i l o Hr Hv H).
+Qed.
+Print Assumptions C19_log_fixed_point.
+
+(* non-vacuity: a two-line log (the second line is not JSON and vanishes) whose first pass changes it and whose second pass changes nothing *)
+Example C19_log_nonvacuous :
+  let c := {| repl := "REDACTED"; nums := true; bools := false; ips := false; nss := false; eager := []; re := None |} in
+  let S := stream current current_consts c None in
+  let x := list_ascii_of_string ("{""c"":""COMMAND"",""attr"":{""command"":{""find"":""x"",""filter"":{""a"":""s@t.co"",""n"":5}}}}" ++ String (ascii_of_N 10) "legacy text" ++ String (ascii_of_N 10) "") in
+  S x <> x /\ S x <> [] /\ S (S x) = S x.
+Proof. vm_compute. repeat split; discriminate. Qed.
+
+(* ---------- the whole command ---------- *)
+From Coq Require Import ZArith.
+From Model Require Import Cli Atlas KeyFile Job.
+From Proofs Require Import JobProofs JobIdem.
+
+(* main.go's Run end to end (Job.v): an accepted plain local run - placeholder mode, the value flags and replacement of C19_line_fixed_point -
+   whose input channel (file, gzip file or stdin) delivers the OUTPUT of a fault-free pass under the same configuration, with an output that can
+   be created and accepts its writes: status 0 and exactly the bytes read at the destination (standard output or --outputFile), or status 1
+   with a line of that output at the reader's limit. *)
+Theorem C19_job_second_run : forall a w m data bar,
+  plain_local a w m ->
+  is_email (repl (a_cfg a)) = false -> valid_string (repl (a_cfg a)) ->
+  nss (a_cfg a) = false -> eager (a_cfg a) = [] -> re (a_cfg a) = None ->
+  let out := stream current current_consts (a_cfg a) None data in
+  (forall fs1, stage_out a w = Some fs1 -> local_input a w m fs1 = Some (out, REof, bar)) ->
+  (j_status (job current current_consts a w) = Exit0 /\ dest a (job current current_consts a w) = out)
+  \/ (j_status (job current current_consts a w) = Exit1 /\ snd (scan out REof) = STooLong).
+Proof.
+  intros a w m data bar Hpl Hr Hv Hn He Hre out Hin. subst out.
+  apply (job_second_run current current_consts a w m data bar Hpl); [|exact Hin].
+  destruct (a_cfg a) as [rp n b i ns eg rx]. cbn [repl nss eager re] in *. subst ns eg rx.
+  intros l o H. exact (C19_line_fixed_point rp n b i l o Hr Hv H).
+Qed.
+Print Assumptions C19_job_second_run.
